@@ -15,7 +15,7 @@ Proof. intros p st'. exact (ok_fn_sound p st'). Qed.
 Theorem C14_every_function_accepted : forallb ok_fn all_fns = true.
 Proof. vm_compute. reflexivity. Qed.
 (* no function silently dropped from the generated list *)
-Theorem C14_function_count : length all_fns = 56.
+Theorem C14_function_count : length all_fns = 58.
 Proof. reflexivity. Qed.
 
 (* hence: no lowered pulsarbat function writes to any of its inputs, whether it returns or raises *)
